@@ -28,6 +28,16 @@ def pairings(A, rng, limit):
     outs = sorted(o for o in A.outputs() if A.types[o] != "input")
     ins = sorted(A.inputs())
     allp = []
+    # outputs that are primary inputs too can be state outputs; chains and hold pairs make a node key AND value
+    io = sorted(o for o in A.outputs() if A.types[o] == "input")
+    special = []
+    for a in io:
+        special.append({a: a})
+        for b in ins:
+            if b != a:
+                special.append({a: b})
+                for o in outs:
+                    special.append({o: a, a: b})
     for k in (1, 2, 3):
         if k > len(outs) or k > len(ins):
             break
@@ -36,7 +46,7 @@ def pairings(A, rng, limit):
                 allp.append(dict(zip(ks, vs)))
     if len(allp) > limit:
         allp = rng.sample(allp, limit)
-    return allp
+    return allp + special[:6]
 
 
 def all_cases(ctx):
